@@ -14,6 +14,7 @@ harness on every atom it meets).
 -/
 import RioModel.Proofs.JsonAction
 import RioModel.Proofs.JsonSchema
+import RioModel.Proofs.JsonText
 set_option linter.unusedSimpArgs false
 
 namespace Rio.C06
@@ -191,6 +192,44 @@ theorem deRequest_wf (P : Codec) (hP : Codec.Canonical P) (j : Json) (q : Reques
     obtain ⟨_, _, _, _, _, _, _, _, _, _, _, _, ra, hra, ca, hca, _, _, rfl⟩ := h
     exact ⟨atomOpt _ hP.1 _ ra hra, atomOpt _ hP.2 _ ca hca⟩
   · exact absurd h (by simp)
+
+/-! ### The text level: what travels from the agent to the proxy is a string
+
+`render` / `print` model `serde_json::to_string`, `parseText` models the reader of
+`serde_json::from_str` (Model/JsonText.lean: white space, escapes incl. surrogate pairs, number
+classification, separators), `deActionText = parseText >=> deAction`. -/
+
+/-- The reader inverts the printer on every value the printer can be asked to print faithfully
+(no floats, integers within `i64 ∪ u64`). -/
+theorem reader_inverts_printer (j : Json) (hp : Printable j) : parseText (render j) = some j :=
+  parseText_render j hp
+
+/-- The printer is injective: different values never print alike (escaping and separators are
+unambiguous). -/
+theorem printer_injective (j j' : Json) (hp : Printable j) (hp' : Printable j')
+    (h : render j = render j') : j = j' :=
+  render_injective j j' hp hp' h
+
+/-- **C06 on the text level**: `from_str(to_string(a)) = a`. -/
+theorem action_text_roundtrip (a : Action) (h : a.WF) :
+    deActionText (print (serAction a)).toList = some a := by
+  simp only [print, String.toList_ofList, deActionText,
+    parseText_render _ (printable_serAction a), Option.bind_some]
+  exact action_roundtrip a h
+
+/-- Two well-formed actions with the same JSON text are the same action. -/
+theorem action_text_injective (a b : Action) (ha : a.WF) (hb : b.WF)
+    (h : print (serAction a) = print (serAction b)) : a = b := by
+  have h1 := action_text_roundtrip a ha
+  rw [h, action_text_roundtrip b hb] at h1
+  exact (Option.some.inj h1).symm
+
+/-- Requests on the text level. -/
+theorem request_text_roundtrip (P : Codec) (q : Request) (h : q.WF P) :
+    deRequestText P (print (serRequest q)).toList = some q := by
+  simp only [print, String.toList_ofList, deRequestText,
+    parseText_render _ (printable_serRequest q), Option.bind_some]
+  exact request_roundtrip P q h
 
 /-! ### Tie to the source by regeneration (tools/consts.d/w4_serde.py) -/
 
